@@ -195,17 +195,39 @@ theorem not_empty_iff (p w h : Nat) :
 def Covered {α} (c w h : Nat) (R : List (List α)) (p y j : Nat) : Prop :=
   y ∈ passRowsOf p h ∧ ∃ i, i < (passRowUnits c w p (R.getD y [])).length ∧ j = idxOf c (geom p).xs (geom p).dx i
 
+/-- the lines of pass `p` in the order the interlaced data holds them (none when the pass is empty);
+    `enc` packs a line's units into bytes (the identity for byte pixels, bit packing below 8 bits) -/
+def passLinesG {α} (enc : List α → Bytes) (c w h p : Nat) (R : List (List α)) : List Bytes :=
+  if passEmptyS p w h then [] else (passRowsOf p h).map fun y => enc (passRowUnits c w p (R.getD y []))
+
+/-- byte pixels: the units are the bytes -/
+def passLinesOf (c w h p : Nat) (R : List Bytes) : List Bytes :=
+  if passEmptyS p w h then [] else (passRowsOf p h).map fun y => passRowUnits c w p (R.getD y [])
+
+/-- the lines of pass `p` given directly (`lineOf p y` = the line of pass `p` cut from row `y`) -/
+def passLinesL (lineOf : Nat → Nat → Bytes) (w h p : Nat) : List Bytes :=
+  if passEmptyS p w h then [] else (passRowsOf p h).map (lineOf p)
+
+theorem passLinesG_eq_L {α} (enc : List α → Bytes) (c w h p : Nat) (R : List (List α)) :
+    passLinesG enc c w h p R = passLinesL (fun p y => enc (passRowUnits c w p (R.getD y []))) w h p := rfl
+
+theorem flatMap_nil_of_forall {α β} (l : List α) (f : α → List β) (hf : ∀ a ∈ l, f a = []) : l.flatMap f = [] := by
+  induction l with
+  | nil => rfl
+  | cons a l ih =>
+    rw [List.flatMap_cons, hf a List.mem_cons_self, ih (fun b hb => hf b (List.mem_cons_of_mem _ hb))]
+    rfl
+
 /-- **One whole pass** of `deinterlace_bytes`: from the first row of a pass that has lines, consuming
     that pass's lines leaves the machine where `advance` puts it after the pass's last row, with
     agreement grown by the pass's positions. -/
-theorem run_one_pass {α} (enc : List α → Bytes) (unitsOf : PassConst → Bytes → Option (List α))
+theorem run_one_passL {α} (lineOf : Nat → Nat → Bytes) (unitsOf : PassConst → Bytes → Option (List α))
     (w h c : Nat) (hc : 0 < c) (R : List (List α)) (hR : R.length = h)
     (hrows : ∀ r ∈ R, r.length = w * c) (p : Nat) (h1 : 1 ≤ p) (h7 : p ≤ 7) (hne : ¬ passEmptyS p w h)
-    (hdec : ∀ row : List α, row.length = w * c →
-      unitsOf (pcOf p) (enc (passRowUnits c w p row)) = some (passRowUnits c w p row))
+    (hunits : ∀ y, y < h → unitsOf (pcOf p) (lineOf p y) = some (passRowUnits c w p (R.getD y [])))
     (A : Array (Array α)) (S : Nat → Nat → Prop) (hinv : Inv R A S) :
     ∃ A', Inv R A' (fun y j => S y j ∨ Covered c w h R p y j) ∧ ∃ ylast, h ≤ ylast + (geom p).dy ∧
-      ((passRowsOf p h).map fun y => enc (passRowUnits c w p (R.getD y []))).foldlM
+      ((passRowsOf p h).map (lineOf p)).foldlM
           (deStep w h c unitsOf) ⟨A, p, (geom p).ys, false⟩ = advance w h p ylast (pcOf p) A' := by
   obtain ⟨hwne, hhne⟩ := (not_empty_iff p w h).mp hne
   have hrowsP := geom_rows p h1 h7
@@ -230,15 +252,8 @@ theorem run_one_pass {α} (enc : List α → Bytes) (unitsOf : PassConst → Byt
       exact List.getElem?_eq_getElem (by omega)
     · rw [hv]
       exact List.getElem?_eq_getElem (by omega)
-  have hunits : ∀ y, y < h → unitsOf (pcOf p) (enc (passRowUnits c w p (R.getD y []))) =
-      some (passRowUnits c w p (R.getD y [])) := by
-    intro y hy
-    have hyR : y < R.length := by omega
-    apply hdec
-    rw [List.getD_eq_getElem?_getD, List.getElem?_eq_getElem hyR]
-    exact hrows _ (List.getElem_mem hyR)
   obtain ⟨A', hinv', hrun⟩ := run_pass_rows w h c unitsOf R p (pcOf p)
-    (fun y => enc (passRowUnits c w p (R.getD y []))) (fun y => passRowUnits c w p (R.getD y [])) hR
+    (lineOf p) (fun y => passRowUnits c w p (R.getD y [])) hR
     (constants_pcOf p h1 h7) hunits hU n (geom p).ys A S hinv
     (by simp only [pcOf]; rw [Nat.mul_comm]; exact hlow)
     (by simp only [pcOf]; rw [Nat.mul_comm]; omega)
@@ -255,33 +270,34 @@ theorem run_one_pass {α} (enc : List α → Bytes) (unitsOf : PassConst → Byt
   · simp only [passRowsOf, hn]
     exact hrun
 
-/-- the lines of pass `p` in the order the interlaced data holds them (none when the pass is empty);
-    `enc` packs a line's units into bytes (the identity for byte pixels, bit packing below 8 bits) -/
-def passLinesG {α} (enc : List α → Bytes) (c w h p : Nat) (R : List (List α)) : List Bytes :=
-  if passEmptyS p w h then [] else (passRowsOf p h).map fun y => enc (passRowUnits c w p (R.getD y []))
-
-/-- byte pixels: the units are the bytes -/
-def passLinesOf (c w h p : Nat) (R : List Bytes) : List Bytes :=
-  if passEmptyS p w h then [] else (passRowsOf p h).map fun y => passRowUnits c w p (R.getD y [])
-
-theorem flatMap_nil_of_forall {α β} (l : List α) (f : α → List β) (hf : ∀ a ∈ l, f a = []) : l.flatMap f = [] := by
-  induction l with
-  | nil => rfl
-  | cons a l ih =>
-    rw [List.flatMap_cons, hf a List.mem_cons_self, ih (fun b hb => hf b (List.mem_cons_of_mem _ hb))]
-    rfl
+/-- the same with the lines given as packed units (`enc`) -/
+theorem run_one_pass {α} (enc : List α → Bytes) (unitsOf : PassConst → Bytes → Option (List α))
+    (w h c : Nat) (hc : 0 < c) (R : List (List α)) (hR : R.length = h)
+    (hrows : ∀ r ∈ R, r.length = w * c) (p : Nat) (h1 : 1 ≤ p) (h7 : p ≤ 7) (hne : ¬ passEmptyS p w h)
+    (hdec : ∀ row : List α, row.length = w * c →
+      unitsOf (pcOf p) (enc (passRowUnits c w p row)) = some (passRowUnits c w p row))
+    (A : Array (Array α)) (S : Nat → Nat → Prop) (hinv : Inv R A S) :
+    ∃ A', Inv R A' (fun y j => S y j ∨ Covered c w h R p y j) ∧ ∃ ylast, h ≤ ylast + (geom p).dy ∧
+      ((passRowsOf p h).map fun y => enc (passRowUnits c w p (R.getD y []))).foldlM
+          (deStep w h c unitsOf) ⟨A, p, (geom p).ys, false⟩ = advance w h p ylast (pcOf p) A' := by
+  apply run_one_passL (fun p y => enc (passRowUnits c w p (R.getD y []))) unitsOf w h c hc R hR hrows p h1 h7 hne _ A S hinv
+  intro y hy
+  have hyR : y < R.length := by omega
+  apply hdec
+  rw [List.getD_eq_getElem?_getD, List.getElem?_eq_getElem hyR]
+  exact hrows _ (List.getElem_mem hyR)
 
 /-- **All remaining passes**: started on the first row of a pass that has lines, the machine consumes
     the lines of that pass and of every later one (`increment_pass` skipping exactly the passes
     without lines) and ends with agreement grown by all their positions. -/
-theorem run_from_pass {α} (enc : List α → Bytes) (unitsOf : PassConst → Bytes → Option (List α))
+theorem run_from_passL {α} (lineOf : Nat → Nat → Bytes) (unitsOf : PassConst → Bytes → Option (List α))
     (w h c : Nat) (hw : 1 ≤ w) (hh : 1 ≤ h) (hc : 0 < c) (R : List (List α)) (hR : R.length = h)
     (hrows : ∀ r ∈ R, r.length = w * c)
-    (hdec : ∀ p, 1 ≤ p → p ≤ 7 → ¬ passEmptyS p w h → ∀ row : List α, row.length = w * c →
-      unitsOf (pcOf p) (enc (passRowUnits c w p row)) = some (passRowUnits c w p row)) :
+    (hdec : ∀ p, 1 ≤ p → p ≤ 7 → ¬ passEmptyS p w h → ∀ y, y < h →
+      unitsOf (pcOf p) (lineOf p y) = some (passRowUnits c w p (R.getD y []))) :
     ∀ (d p : Nat), p + d = 7 → 1 ≤ p → ¬ passEmptyS p w h →
       ∀ (A : Array (Array α)) (S : Nat → Nat → Prop), Inv R A S →
-      ∃ st', ((List.range' p (d + 1)).flatMap fun q => passLinesG enc c w h q R).foldlM
+      ∃ st', ((List.range' p (d + 1)).flatMap fun q => passLinesL lineOf w h q).foldlM
             (deStep w h c unitsOf) ⟨A, p, (geom p).ys, false⟩ = some st' ∧
         Inv R st'.lines (fun y j => S y j ∨ ∃ q, p ≤ q ∧ q ≤ 7 ∧ Covered c w h R q y j) := by
   intro d
@@ -289,13 +305,13 @@ theorem run_from_pass {α} (enc : List α → Bytes) (unitsOf : PassConst → By
   | ind d ih =>
     intro p hpd h1 hne A S hinv
     have h7 : p ≤ 7 := by omega
-    obtain ⟨A', hinv', ylast, hlast, hrun⟩ := run_one_pass enc unitsOf w h c hc R hR hrows p h1 h7 hne (hdec p h1 h7 hne) A S hinv
-    have hsplit : ((List.range' p (d + 1)).flatMap fun q => passLinesG enc c w h q R) =
-        ((passRowsOf p h).map fun y => enc (passRowUnits c w p (R.getD y []))) ++
-          ((List.range' (p + 1) d).flatMap fun q => passLinesG enc c w h q R) := by
+    obtain ⟨A', hinv', ylast, hlast, hrun⟩ := run_one_passL lineOf unitsOf w h c hc R hR hrows p h1 h7 hne (hdec p h1 h7 hne) A S hinv
+    have hsplit : ((List.range' p (d + 1)).flatMap fun q => passLinesL lineOf w h q) =
+        ((passRowsOf p h).map (lineOf p)) ++
+          ((List.range' (p + 1) d).flatMap fun q => passLinesL lineOf w h q) := by
       rw [List.range'_succ, List.flatMap_cons]
       congr 1
-      simp only [passLinesG, hne, if_false]
+      simp only [passLinesL, hne, if_false]
     rw [hsplit, List.foldlM_append, hrun]
     unfold advance
     simp only [show ylast + (pcOf p).yStep ≥ h from hlast, if_true]
@@ -304,12 +320,12 @@ theorem run_from_pass {α} (enc : List α → Bytes) (unitsOf : PassConst → By
     | none =>
       rw [hinc] at hspec
       simp only at hspec
-      have hrest : ((List.range' (p + 1) d).flatMap fun q => passLinesG enc c w h q R) = [] := by
+      have hrest : ((List.range' (p + 1) d).flatMap fun q => passLinesL lineOf w h q) = [] := by
         apply flatMap_nil_of_forall
         intro m hm
         obtain ⟨i, hi, rfl⟩ := List.mem_range'.mp hm
         have := hspec (p + 1 + 1 * i) (by omega) (by omega)
-        simp only [passLinesG, this, if_true]
+        simp only [passLinesL, this, if_true]
       rw [hrest]
       refine ⟨⟨A', p, ylast, true⟩, rfl, ?_⟩
       refine ⟨hinv'.size, hinv'.rows, ?_⟩
@@ -336,8 +352,8 @@ theorem run_from_pass {α} (enc : List α → Bytes) (unitsOf : PassConst → By
       obtain ⟨hpq, hq7, hqne, hbetween⟩ := hspec
       have hq1 : 1 ≤ q := by omega
       simp only [constants_pcOf q hq1 hq7]
-      have hrest : ((List.range' (p + 1) d).flatMap fun m => passLinesG enc c w h m R) =
-          ((List.range' q (7 - q + 1)).flatMap fun m => passLinesG enc c w h m R) := by
+      have hrest : ((List.range' (p + 1) d).flatMap fun m => passLinesL lineOf w h m) =
+          ((List.range' q (7 - q + 1)).flatMap fun m => passLinesL lineOf w h m) := by
         have e : List.range' (p + 1) d = List.range' (p + 1) (q - p - 1) ++ List.range' (p + 1 + (q - p - 1)) (7 - q + 1) := by
           rw [List.range'_append_1]
           congr 1
@@ -345,12 +361,12 @@ theorem run_from_pass {α} (enc : List α → Bytes) (unitsOf : PassConst → By
         rw [e, List.flatMap_append]
         have e2 : p + 1 + (q - p - 1) = q := by omega
         rw [e2]
-        have hnil : ((List.range' (p + 1) (q - p - 1)).flatMap fun m => passLinesG enc c w h m R) = [] := by
+        have hnil : ((List.range' (p + 1) (q - p - 1)).flatMap fun m => passLinesL lineOf w h m) = [] := by
           apply flatMap_nil_of_forall
           intro m hm
           obtain ⟨i, hi, rfl⟩ := List.mem_range'.mp hm
           have := hbetween (p + 1 + 1 * i) (by omega) (by omega)
-          simp only [passLinesG, this, if_true]
+          simp only [passLinesL, this, if_true]
         rw [hnil, List.nil_append]
       rw [hrest]
       obtain ⟨st', hst, hinvF⟩ := ih (7 - q) (by omega) q (by omega) hq1 hqne A' _ hinv'
@@ -374,6 +390,24 @@ theorem run_from_pass {α} (enc : List α → Bytes) (unitsOf : PassConst → By
               · rcases Classical.em (Spec.passCount h (geom m).ys (geom m).dy = 0) with hh0 | hh0
                 · simp only [passRowsOf, hh0, List.range'_zero, List.not_mem_nil] at hy
                 · exact (not_empty_iff m w h).mpr ⟨hw0, hh0⟩ hem
+
+/-- the same with the lines given as packed units (`enc`) -/
+theorem run_from_pass {α} (enc : List α → Bytes) (unitsOf : PassConst → Bytes → Option (List α))
+    (w h c : Nat) (hw : 1 ≤ w) (hh : 1 ≤ h) (hc : 0 < c) (R : List (List α)) (hR : R.length = h)
+    (hrows : ∀ r ∈ R, r.length = w * c)
+    (hdec : ∀ p, 1 ≤ p → p ≤ 7 → ¬ passEmptyS p w h → ∀ row : List α, row.length = w * c →
+      unitsOf (pcOf p) (enc (passRowUnits c w p row)) = some (passRowUnits c w p row)) :
+    ∀ (d p : Nat), p + d = 7 → 1 ≤ p → ¬ passEmptyS p w h →
+      ∀ (A : Array (Array α)) (S : Nat → Nat → Prop), Inv R A S →
+      ∃ st', ((List.range' p (d + 1)).flatMap fun q => passLinesG enc c w h q R).foldlM
+            (deStep w h c unitsOf) ⟨A, p, (geom p).ys, false⟩ = some st' ∧
+        Inv R st'.lines (fun y j => S y j ∨ ∃ q, p ≤ q ∧ q ≤ 7 ∧ Covered c w h R q y j) := by
+  apply run_from_passL (fun p y => enc (passRowUnits c w p (R.getD y []))) unitsOf w h c hw hh hc R hR hrows
+  intro p h1 h7 hne y hy
+  have hyR : y < R.length := by omega
+  apply hdec p h1 h7 hne
+  rw [List.getD_eq_getElem?_getD, List.getElem?_eq_getElem hyR]
+  exact hrows _ (List.getElem_mem hyR)
 
 /-- **Every position of the image is written by some pass** (the pass of its pixel). -/
 theorem all_covered {α} (w h c : Nat) (hc : 0 < c) (R : List (List α)) (hR : R.length = h)
@@ -420,16 +454,23 @@ def allLinesG {α} (enc : List α → Bytes) (c w h : Nat) (R : List (List α)) 
 def allLines (c w h : Nat) (R : List Bytes) : List Bytes :=
   (List.range' 1 7).flatMap fun q => passLinesOf c w h q R
 
+/-- all lines, given directly -/
+def allLinesL (lineOf : Nat → Nat → Bytes) (w h : Nat) : List Bytes :=
+  (List.range' 1 7).flatMap fun q => passLinesL lineOf w h q
+
+theorem allLinesG_eq_L {α} (enc : List α → Bytes) (c w h : Nat) (R : List (List α)) :
+    allLinesG enc c w h R = allLinesL (fun p y => enc (passRowUnits c w p (R.getD y []))) w h := rfl
+
 /-- **The de-interlacing machine rebuilds the original rows**: run from its initial state over all the
     lines of the interlaced image it ends (never panicking) with working lines equal to the rows the
     lines were cut from - for every width, height ≥ 1 and pixel size of `c ≥ 1` units (bytes, or bits
     below 8 bits per pixel), given that `unitsOf` recovers a line's units from its bytes. -/
-theorem machine_rebuilds_rowsG {α} (enc : List α → Bytes) (unitsOf : PassConst → Bytes → Option (List α)) (zero : α)
+theorem machine_rebuilds_rowsL {α} (lineOf : Nat → Nat → Bytes) (unitsOf : PassConst → Bytes → Option (List α)) (zero : α)
     (w h c : Nat) (hw : 1 ≤ w) (hh : 1 ≤ h) (hc : 0 < c) (R : List (List α))
     (hR : R.length = h) (hrows : ∀ r ∈ R, r.length = w * c)
-    (hdec : ∀ p, 1 ≤ p → p ≤ 7 → ¬ passEmptyS p w h → ∀ row : List α, row.length = w * c →
-      unitsOf (pcOf p) (enc (passRowUnits c w p row)) = some (passRowUnits c w p row)) :
-    ∃ st', (allLinesG enc c w h R).foldlM (deStep w h c unitsOf)
+    (hdec : ∀ p, 1 ≤ p → p ≤ 7 → ¬ passEmptyS p w h → ∀ y, y < h →
+      unitsOf (pcOf p) (lineOf p y) = some (passRowUnits c w p (R.getD y []))) :
+    ∃ st', (allLinesL lineOf w h).foldlM (deStep w h c unitsOf)
         ⟨Array.replicate h (Array.replicate (c * w) zero), 1, 0, false⟩ = some st' ∧
       st'.lines.toList.map Array.toList = R := by
   have hinv0 : Inv R (Array.replicate h (Array.replicate (c * w) zero)) (fun _ _ => False) := by
@@ -442,7 +483,7 @@ theorem machine_rebuilds_rowsG {α} (enc : List α → Bytes) (unitsOf : PassCon
     · rw [Array.getElem?_eq_none (by simpa using Nat.le_of_not_lt hy), List.getElem?_eq_none (by omega)]
       rfl
   have hne1 : ¬ passEmptyS 1 w h := by rw [pe1]; omega
-  obtain ⟨st', hrun, hinv⟩ := run_from_pass enc unitsOf w h c hw hh hc R hR hrows hdec 6 1 rfl (Nat.le_refl _) hne1 _ _ hinv0
+  obtain ⟨st', hrun, hinv⟩ := run_from_passL lineOf unitsOf w h c hw hh hc R hR hrows hdec 6 1 rfl (Nat.le_refl _) hne1 _ _ hinv0
   refine ⟨st', hrun, ?_⟩
   apply List.ext_getElem?
   intro y
@@ -468,6 +509,22 @@ theorem machine_rebuilds_rowsG {α} (enc : List α → Bytes) (unitsOf : PassCon
   · have hyA : st'.lines.size ≤ y := by rw [hinv.size]; omega
     rw [Array.getElem?_eq_none hyA, List.getElem?_eq_none (by omega)]
     rfl
+
+/-- the same with the lines given as packed units (`enc`) -/
+theorem machine_rebuilds_rowsG {α} (enc : List α → Bytes) (unitsOf : PassConst → Bytes → Option (List α)) (zero : α)
+    (w h c : Nat) (hw : 1 ≤ w) (hh : 1 ≤ h) (hc : 0 < c) (R : List (List α))
+    (hR : R.length = h) (hrows : ∀ r ∈ R, r.length = w * c)
+    (hdec : ∀ p, 1 ≤ p → p ≤ 7 → ¬ passEmptyS p w h → ∀ row : List α, row.length = w * c →
+      unitsOf (pcOf p) (enc (passRowUnits c w p row)) = some (passRowUnits c w p row)) :
+    ∃ st', (allLinesG enc c w h R).foldlM (deStep w h c unitsOf)
+        ⟨Array.replicate h (Array.replicate (c * w) zero), 1, 0, false⟩ = some st' ∧
+      st'.lines.toList.map Array.toList = R := by
+  apply machine_rebuilds_rowsL (fun p y => enc (passRowUnits c w p (R.getD y []))) unitsOf zero w h c hw hh hc R hR hrows
+  intro p h1 h7 hne y hy
+  have hyR : y < R.length := by omega
+  apply hdec p h1 h7 hne
+  rw [List.getD_eq_getElem?_getD, List.getElem?_eq_getElem hyR]
+  exact hrows _ (List.getElem_mem hyR)
 
 /-- byte pixels -/
 theorem machine_rebuilds_rows (w h c : Nat) (hw : 1 ≤ w) (hh : 1 ≤ h) (hc : 0 < c) (R : List Bytes)
@@ -1135,6 +1192,9 @@ theorem deinterlace_interlace_bits (i : Img) (hb1 : 1 ≤ i.ihdr.bpp) (hb8 : i.i
     (hw : 1 ≤ i.ihdr.width) (hh : 1 ≤ i.ihdr.height) (hil : i.ihdr.interlaced = false)
     (hlen : i.data.length = i.ihdr.height * Spec.rowBytes i.ihdr.width i.ihdr.bpp) :
     ∃ j, interlaceImage i = some j ∧ j.ihdr = { i.ihdr with interlaced := true } ∧
+      j.data = (allLinesG bytesOfBits i.ihdr.bpp i.ihdr.width i.ihdr.height
+        ((chunksExact (Spec.rowBytes i.ihdr.width i.ihdr.bpp) i.data).map
+          fun r => (bitsOf r).take (i.ihdr.width * i.ihdr.bpp))).flatten ∧
       deinterlaceImage j = some ⟨i.ihdr,
         (chunksExact (Spec.rowBytes i.ihdr.width i.ihdr.bpp) i.data).flatMap fun r =>
           bytesOfBits ((bitsOf r).take (i.ihdr.width * i.ihdr.bpp))⟩ := by
@@ -1176,7 +1236,7 @@ theorem deinterlace_interlace_bits (i : Img) (hb1 : 1 ≤ i.ihdr.bpp) (hb8 : i.i
   refine ⟨⟨{ i.ihdr with interlaced := true },
     (allLinesG bytesOfBits i.ihdr.bpp i.ihdr.width i.ihdr.height
       ((chunksExact (Spec.rowBytes i.ihdr.width i.ihdr.bpp) i.data).map
-        fun r => (bitsOf r).take (i.ihdr.width * i.ihdr.bpp))).flatten⟩, ?_, rfl, ?_⟩
+        fun r => (bitsOf r).take (i.ihdr.width * i.ihdr.bpp))).flatten⟩, ?_, rfl, rfl, ?_⟩
   · unfold interlaceImage
     rw [hint]
     rfl
@@ -1223,7 +1283,7 @@ theorem deinterlace_interlace_bits_exact (i : Img) (hb1 : 1 ≤ i.ihdr.bpp) (hb8
     (hpad : ∀ r ∈ chunksExact (Spec.rowBytes i.ihdr.width i.ihdr.bpp) i.data,
       bytesOfBits ((bitsOf r).take (i.ihdr.width * i.ihdr.bpp)) = r) :
     ∃ j, interlaceImage i = some j ∧ deinterlaceImage j = some i := by
-  obtain ⟨j, h1, _, h3⟩ := deinterlace_interlace_bits i hb1 hb8 hw hh hil hlen
+  obtain ⟨j, h1, _, _, h3⟩ := deinterlace_interlace_bits i hb1 hb8 hw hh hil hlen
   refine ⟨j, h1, ?_⟩
   rw [h3]
   have hwc : 0 < Spec.rowBytes i.ihdr.width i.ihdr.bpp := by
